@@ -98,6 +98,13 @@ Fixpoint map_values (env : enum_env) (names : list str) : outcome (list Z) :=
               end
   end.
 
+(* a key type marked as the primary key of its entity *)
+Definition is_primary_ty (t : fty) : bool :=
+  match t with
+  | TKey _ (Some e) _ => match ek_type e with Some (EPrimary true) => true | _ => false end
+  | _ => false
+  end.
+
 (* ---- buildField ----------------------------------------------------------- *)
 Record fieldw := FW {
   fw_kind : pkind;
